@@ -1024,20 +1024,39 @@ var _ = core.ModPath
 
 // dominatedByNonNilTest: b is dominated by the true branch of some `x != nil`.
 func dominatedByNonNilTest(b *ssa.BasicBlock) bool {
-	for d := b; d != nil; d = d.Idom() {
-		for _, p := range d.Preds {
-			ifi, ok := p.Instrs[len(p.Instrs)-1].(*ssa.If)
-			if !ok || p.Succs[0] != d || len(d.Preds) != 1 {
-				continue
-			}
-			if bo, ok := ifi.Cond.(*ssa.BinOp); ok && bo.Op == token.NEQ {
-				if k, ok := bo.Y.(*ssa.Const); ok && k.IsNil() {
-					return true
+	// every path from the entry to b takes the non-nil side of some nil test (`x != nil`, also as
+	// one operand of `a != nil || b != nil`): b is unreachable once those edges are removed
+	fn := b.Parent()
+	if fn == nil || len(fn.Blocks) == 0 {
+		return false
+	}
+	seen := map[*ssa.BasicBlock]bool{fn.Blocks[0]: true}
+	work := []*ssa.BasicBlock{fn.Blocks[0]}
+	for len(work) > 0 {
+		p := work[0]
+		work = work[1:]
+		if p == b {
+			return false
+		}
+		var nonNilSucc *ssa.BasicBlock
+		if ifi, ok := p.Instrs[len(p.Instrs)-1].(*ssa.If); ok && p.Succs[0] != p.Succs[1] {
+			if _, trueIsNil, ok := nilTestOf(ifi.Cond); ok {
+				if trueIsNil {
+					nonNilSucc = p.Succs[1]
+				} else {
+					nonNilSucc = p.Succs[0]
 				}
 			}
 		}
+		for _, sc := range p.Succs {
+			if sc == nonNilSucc || seen[sc] {
+				continue
+			}
+			seen[sc] = true
+			work = append(work, sc)
+		}
 	}
-	return false
+	return true
 }
 
 // checkWorkersDrain: a goroutine that ranges over a channel fed by a producer
